@@ -5,6 +5,7 @@ import (
 	"go/ast"
 	"go/token"
 	"go/types"
+	"regexp"
 	"sort"
 	"strings"
 
@@ -85,8 +86,25 @@ func uniqObjs(in []types.Object) []types.Object {
 func matchException(l *Loop, sig string) *Exception {
 	for i := range Exceptions {
 		e := &Exceptions[i]
-		if e.Func == l.FnName && e.Ranged == l.Ranged && e.Effects == sig {
+		if e.Func != "" && e.Func == l.FnName && e.Ranged == l.Ranged && e.Effects == sig {
 			return e
+		}
+		if e.Func == "" && e.FuncPrefix != "" && strings.HasPrefix(l.FnName, e.FuncPrefix) && regexp.MustCompile(e.RangedRe).MatchString(l.Ranged) {
+			okAll := sig != ""
+			for _, eff := range strings.Split(sig, ";") {
+				found := false
+				for _, al := range e.EffectsAllowed {
+					if eff == al {
+						found = true
+					}
+				}
+				if !found {
+					okAll = false
+				}
+			}
+			if okAll {
+				return e
+			}
 		}
 	}
 	return nil
@@ -470,26 +488,7 @@ func (a *Analyzer) comparatorTotal(info *types.Info, e ast.Expr) (bool, string) 
 	if len(params) != 2 {
 		return false, "comparator does not take two elements"
 	}
-	okAll, why := true, ""
-	ast.Inspect(fl.Body, func(n ast.Node) bool {
-		rs, isRet := n.(*ast.ReturnStmt)
-		if !isRet || len(rs.Results) != 1 {
-			return true
-		}
-		if ok, w := a.totalExpr(info, rs.Results[0], params, 0); !ok {
-			if c, isCall := ast.Unparen(rs.Results[0]).(*ast.CallExpr); isCall && isCompare(info, c) && guardedNE(fl.Body, rs, c) {
-				return true // Compare(x, y) under `if x != y` cannot return 0
-			}
-			okAll, why = false, w
-		}
-		return true
-	})
-	if okAll {
-		if ok, w := a.antisymmetric(info, fl, params); !ok {
-			return false, w
-		}
-	}
-	return okAll, why
+	return a.comparatorPaths(info, fl, params)
 }
 
 func isCompare(info *types.Info, c *ast.CallExpr) bool {
